@@ -43,5 +43,5 @@ SPEC = dict(
                'a_version_parse/a_version_set_alpha read past a heap slice that has no terminator (ASan heap-buffer-overflow, version.c:138 / :97); pid_fuzzy::new().bfuzz() builds a slice '
                'from a null pointer (from_raw_parts_mut precondition abort); regress_linear over an empty coefficient slice divides by zero in pdm/bgd. '
                'trusted: gdb/DWARF for C field order, g++ type traits, rustc size_of/offset_of!, the small lib.rs parser in bin/c20.py (run fails as inconclusive if it finds implausibly few items)',
-    technique='executed layout/signature probes on both sides of the FFI + cross-boundary transfer, call-through and wrapper-vs-C twin execution over random call histories under ASan',
+    technique='executed layout/signature probes on both sides of the FFI + cross-boundary transfer, call-through and wrapper-vs-C twin execution over random call histories under ASan; layout probe re-executed under simulated target predefines',
 )
